@@ -138,15 +138,25 @@ bool DecodingTable::getSubstring(ChunkScan *c) {
       return false;
     } else {
       if (endings->getBit(index)) {
-        uint substrLen = strlen((char *)&(stream[position])) + 1;
+        // The two first chars of an internal string encode (VByte) its prefix
+        // length: they can be '\0' but they never end the string
+        uint previous = c->extracted - x.length;
+        uint substrLen = (previous < 2) ? (2 - previous) : 0;
 
-        c->strLen += substrLen;
-        c->advanced = x.length - substrLen;
-        return true;
-      } else {
-        c->strLen += x.length;
-        return false;
+        while ((substrLen < x.length) && (stream[position + substrLen] != 0))
+          substrLen++;
+
+        if (substrLen < x.length) {
+          substrLen++;
+
+          c->strLen += substrLen;
+          c->advanced = x.length - substrLen;
+          return true;
+        }
       }
+
+      c->strLen += x.length;
+      return false;
     }
 
   } else {
